@@ -81,10 +81,13 @@ def apply_reserve_resource_constraint(machine, constraint):
                 = resources_after_reservation(
                     machine.chip_resource_exceptions[location],
                     constraint)
-            if overallocated(machine[location]):
+            # (NB: resource exceptions may be listed for
+            # dead chips, which cannot be looked up through the machine)
+            if overallocated(machine.chip_resource_exceptions[location]):
                 raise InsufficientResourceError(
                     "Cannot meet {}".format(constraint))
-    else:
+    elif constraint.location in machine:
+        # (Nothing can, or need, be reserved on a dead chip)
         # Compensate for reserved resources at a specified location
         machine[constraint.location] = resources_after_reservation(
             machine[constraint.location], constraint)
